@@ -649,6 +649,223 @@ def run_impl(himpl, lines, notes):
     return out, None
 
 
+# ------------------------------------------------------------------ preprocessor-selected I/O code
+PP_ANCHORS = ["src/kernel/gmp++/gmp++_int_io.C", "src/kernel/gmp++/gmp++_int_cstor.C", "src/kernel/rational/givratio.C", "src/kernel/rational/givratcstor.C",
+              "src/kernel/recint/rudisplay.h", "src/kernel/recint/rdisplay.h", "src/kernel/recint/rmdisplay.h", "src/kernel/recint/ruconvert.h",
+              "src/kernel/recint/rconvert.h", "src/kernel/ring/modular-implem.h", "src/kernel/ring/modular-balanced-double.inl",
+              "src/kernel/ring/modular-balanced-float.inl", "src/kernel/ring/modular-balanced-int32.inl", "src/kernel/ring/modular-balanced-int64.inl",
+              "src/kernel/ring/modular-extended.inl", "src/kernel/ring/montgomery-int32.inl", "src/kernel/ring/montgomery-ruint.inl",
+              "src/kernel/ring/modular-log16.inl", "src/kernel/field/gfq.inl", "src/kernel/field/extension.h", "src/kernel/field/gf2.inl",
+              "src/library/poly1/givpoly1io.inl", "src/library/poly1/givindeter.C"]
+# what each selecting macro is about; "io" = selects reader/writer code of the property: its alternative must be built and driven
+PP_MACROS = {
+    "__GIVARO_GMP_NO_CXX": ("io", "Integer::print / operator>> without the GMP C++ streams: alternative built with -D__GIVARO_GMP_NO_CXX and driven (alt.* streams)"),
+    "__PATHCC__": ("io", "same branch as __GIVARO_GMP_NO_CXX (PathScale compiler)"),
+    "__GIVARO_OLD_SSTREAM__": ("io", "Rational(const char*) through std::istrstream: built when this compiler can"),
+    "__GIVARO_SIZEOF_LONG": ("abi", "32-bit `long` limb splitting: fixed by the ABI of this machine (LP64), the alternative cannot be built here"),
+    "__GIVARO_INLINE_ALL": ("structure", "include structure of the gmp++ units, no reader/writer text"),
+    "__GMPplusplus_CSTOR_C__": ("structure", "include guard"),
+    "__GIVARO_DEBUG": ("other", "syntax checks of the DOMAIN-description readers (outside the element / polynomial I/O of the property) and division-by-zero checks"),
+    "NDEBUG": ("other", "assertions in ModularExtended arithmetic"),
+    "FP_FAST_FMA": ("other", "ModularExtended multiplication kernels"), "FP_FAST_FMAF": ("other", "ModularExtended multiplication kernels"),
+    "__SSE_MATH__": ("other", "ModularExtended multiplication kernels"),
+    "__GIVARO_COUNT__": ("other", "operation counters of GFqDom"), "GIVARO_RANDOM_IRREDUCTIBLE_PRIMITIVE_ROOT": ("other", "GFqDom construction"),
+    "HAVE_BIG_ENDIAN": ("other", "Rational(double) bit layout"), "__MWERKS__": ("other", "compiler work-around in givratcstor.C"), "__GNUC__": ("other", "compiler work-around in givratcstor.C"),
+}
+
+
+def scan_pp_chains():
+    """every #if/#ifdef/#ifndef ... #elif/#else ... #endif chain of the anchor files, from the CURRENT sources (include guards left out)"""
+    chains = []
+    for rel in PP_ANCHORS:
+        try:
+            lines = open(os.path.join(vf.REPO, rel), errors="replace").read().split("\n")
+        except OSError:
+            chains.append({"file": rel, "line": 0, "cond": "<file missing>", "macros": [], "branches": 0})
+            continue
+        stack = []
+        for i, l in enumerate(lines):
+            m = re.match(r"\s*#\s*(if|ifdef|ifndef|elif|else|endif)\b(.*)", l)
+            if not m:
+                continue
+            d, rest = m.group(1), re.sub(r"/\*.*?\*/|//.*", "", m.group(2)).strip()
+            if d in ("if", "ifdef", "ifndef"):
+                guard = d == "ifndef" and any(re.match(r"\s*#\s*define\s+" + re.escape(rest) + r"\b", x) for x in lines[i + 1:i + 3])
+                cond = rest if d == "if" else ("defined(%s)" % rest if d == "ifdef" else "!defined(%s)" % rest)
+                stack.append({"file": rel, "line": i + 1, "cond": cond, "branches": 1, "guard": guard, "elif": []})
+            elif d in ("elif", "else") and stack:
+                stack[-1]["branches"] += 1
+                if d == "elif":
+                    stack[-1]["elif"].append(rest)
+            elif d == "endif" and stack:
+                c = stack.pop()
+                if not c.pop("guard"):
+                    c["macros"] = sorted(set(x for x in re.findall(r"[A-Za-z_][A-Za-z0-9_]*", " ".join([c["cond"]] + c["elif"])) if x != "defined"))
+                    chains.append(c)
+    return chains
+
+
+def probe_selected(chains):
+    """let the compiler say which branch it selects for each chain's first condition (the repository's flags, after the headers)"""
+    conds = sorted(set(c["cond"] for c in chains if c["line"]))
+    src = ["#include <cmath>", '#include "givinteger.h"', '#include "givrational.h"', '#include "modular-extended.h"', "#include <recint/recint.h>", "#include <cstdio>", "int main() {"]
+    for k, cd in enumerate(conds):
+        src += ["#if %s" % cd, '  std::printf("%d 1\\n");' % k, "#else", '  std::printf("%d 0\\n");' % k, "#endif"]
+    src += ["  return 0; }"]
+    text = "\n".join(src) + "\n"
+    d = vf.mkdir(os.path.join(vf.CACHE, "c19-pp-%s" % vf.file_hash([os.path.join(vf.REPO, f) for f in PP_ANCHORS], text)))
+    res = os.path.join(d, "selected.txt")
+    if not os.path.exists(res):
+        open(os.path.join(d, "probe.C"), "w").write(text)
+        rc, out = vf.sh([vf.CXX] + vf.BASE_FLAGS + vf.inc_flags() + [os.path.join(d, "probe.C"), "-o", os.path.join(d, "probe"), "-lgmpxx", "-lgmp"], timeout=600)
+        if rc != 0:
+            return None, out[-800:]
+        rc, out = vf.sh([os.path.join(d, "probe")], timeout=60)
+        if rc != 0:
+            return None, out[-300:]
+        open(res + ".tmp", "w").write(out)
+        os.replace(res + ".tmp", res)
+    sel = {}
+    for l in open(res).read().split("\n"):
+        t = l.split()
+        if len(t) == 2 and t[0].isdigit():
+            sel[conds[int(t[0])]] = t[1] == "1"
+    return sel, ""
+
+
+def build_alt_nocxx():
+    """the Integer / Rational part of the harness against gmp++_int_io.C compiled with -D__GIVARO_GMP_NO_CXX, linked in front of the
+    library archive (its four functions then come from the freshly compiled unit)"""
+    srcp = os.path.join(vf.ROOT, "harness", "c19_io.C")
+    unit = os.path.join(vf.REPO, "src/kernel/gmp++/gmp++_int_io.C")
+    key = vf.file_hash(vf.repo_sources() + [srcp], "alt-nocxx")
+    d = vf.mkdir(os.path.join(vf.CACHE, "h-c19_alt-%s" % key))
+    b = os.path.join(d, "c19_alt")
+    if os.path.exists(b):
+        return b, ""
+    lib, log = vf.build_repo_lib()
+    if lib is None:
+        return None, "library build failed:\n" + log
+    import shutil
+    mylib = os.path.join(d, "libgivaro_verif.%d.a" % os.getpid())
+    try:
+        shutil.copyfile(lib, mylib)
+    except OSError as ex:
+        return None, "library vanished from the cache while copying: %s" % ex
+    tmpb = "%s.tmp%d" % (b, os.getpid())
+    rc, out = vf.sh([vf.CXX] + vf.BASE_FLAGS + ["-DC19_NOCXX", "-D__GIVARO_GMP_NO_CXX"] + vf.inc_flags() + [srcp, unit, "-o", tmpb, mylib, "-lgmpxx", "-lgmp", "-lpthread"], timeout=900)
+    try:
+        os.remove(mylib)
+    except OSError:
+        pass
+    if rc != 0:
+        return None, out
+    os.rename(tmpb, b)
+    vf.prune_cache("h-c19_alt-", keep=4)
+    return b, out
+
+
+def nocxx_table():
+    """the powers-of-ten table of the packet reader, from the current source"""
+    try:
+        t = open(os.path.join(vf.REPO, "src/kernel/gmp++/gmp++_int_io.C"), errors="replace").read()
+    except OSError:
+        return None
+    m = re.search(r"\bbase\s*\[\s*[0-9]*\s*\]\s*=\s*\{([^}]*)\}", t)
+    if not m:
+        return None
+    body = re.sub(r"/\*.*?\*/|//[^\n]*", "", m.group(1), flags=re.S)
+    try:
+        return [int(x.strip().rstrip("lLuU")) for x in body.split(",") if x.strip()]
+    except ValueError:
+        return None
+
+
+def py_nocxx_read(t, old, e, f):
+    """operator>>(istream&, Integer&) of the build without the GMP C++ streams, at grammar level (the value is int() of the digits)
+    -> (value or "UB", rest, eof, fail)"""
+    if f:
+        return old, t, e, f
+    if e:
+        return "UB", t, e, True
+    t = t.lstrip(WS)
+    if t == "":
+        return "UB", "", True, True
+    ch, t = t[0], t[1:]
+    if ch not in "+-0123456789":
+        return 0, t, False, False
+    if ch in "0123456789":
+        t = ch + t
+    t = t.lstrip(WS)
+    if t == "":
+        return 0, "", True, True
+    j = 0
+    while j < len(t) and t[j] in "0123456789":
+        j += 1
+    a = int(t[:j]) if j else 0
+    if ch == "-":
+        a = -a
+    if j == len(t):
+        return a, "", True, True
+    return a, t[j:], False, False
+
+
+def judge_alt(chk, c, got, mline):
+    """cases run on the build without the GMP C++ streams"""
+    kind, sp = c["kind"], c["spec"]
+    raw = " ".join(got)
+    case = {"impl": c["impl"], "model": c["model"], "kind": kind, "spec": {k: (v if not isinstance(v, int) or abs(v) < 10**40 else str(v)) for k, v in sp.items()}}
+    site = "Integer I/O without the GMP C++ streams (-D__GIVARO_GMP_NO_CXX)"
+    mt = mline.split() if mline is not None else None
+
+    def fail(klass, expected, detail=""):
+        chk.fail_input(site, klass, case, expected, raw[:600], detail)
+    if got[:1] in (["CRASHED"], ["DOES-NOT-RETURN"], ["CPU-TIMEOUT"]):
+        fail("crash / does not return", "a result line", raw)
+        return
+    if kind == "alt.int.write":
+        exp = [hx(str(abs(sp["z"]) if sp["variant"] == "abs" else sp["z"]))]
+        if got != exp:
+            fail("write " + sp["variant"], exp[0], "decimal numeral expected")
+    elif kind == "alt.int.rt":
+        t = str(sp["z"])
+        v, r, e, f = py_nocxx_read(t + sp["tail"], sp["old"], False, False)
+        exp = [hx(t), str(v), hx(r), st(e, f)]
+        if got[:3] != exp[:3]:
+            fail("roundtrip, %d digits" % len(str(abs(sp["z"]))), " ".join(exp), "write then read, form %s" % sp["variant"])
+        elif got != exp:
+            chk.broke("alt build: stream state differs from the branch's reader as written on `%s`: %s, expected %s" % (c["impl"][:200], raw[:200], " ".join(exp)))
+        if mt is not None and got[1:] != mt and got[:3] == exp[:3]:
+            chk.broke("correspondence model/implementation (no-C++-streams reader) differs on `%s`: model=%s impl=%s" % (c["impl"][:200], mline[:200], raw[:200]))
+    elif kind == "alt.int.seqd":
+        e, f, cur, t, exp = False, False, sp["old"], sp["text"], []
+        for _ in range(sp["n"]):
+            v, t, e, f = py_nocxx_read(t, cur, e, f)
+            if v == "UB":
+                exp.append(None)
+                break
+            cur = v
+            exp.append("%d:%s:%s" % (v, st(e, f), nxc(t)))
+        toks = got[:-1]
+        ok = len(toks) >= len([x for x in exp if x is not None]) and all(x is None or x == y for x, y in zip(exp, toks))
+        if not ok:
+            fail("sequence", " ".join(str(x) for x in exp), "%d reads from `%s`" % (sp["n"], sp["text"][:100]))
+        elif mt is not None:
+            mtoks = mt[:-1]
+            k = len(mtoks)
+            if toks[:k] != mtoks or (mt[-1] != "UB" and mt[-1] != got[-1]):
+                chk.broke("correspondence model/implementation (no-C++-streams reader) differs on `%s`: model=%s impl=%s" % (c["impl"][:200], mline[:300], raw[:300]))
+    elif kind == "alt.rat.rt":
+        t = str(sp["n"]) if sp["d"] == 1 else "%d/%d" % (sp["n"], sp["d"])
+        exp = [hx(t), "%d/%d" % (sp["n"], sp["d"])]
+        if got[:2] != exp:
+            fail("Rational through that reader", " ".join(exp))
+    elif kind == "alt.int.rtb":
+        exp = [hx(str(sp["z"])), str(sp["z"])]       # the branch ignores the stream's basefield on both sides: decimal text, read back
+        if got[:2] != exp:
+            fail("stream in hex / oct mode", " ".join(exp))
+
+
 def main(tier, replay=None):
     chk = vf.Check("C19", tier, "proof")
     rng = vf.Rng(chk.seed)
@@ -1263,6 +1480,74 @@ def main(tier, replay=None):
         v = rng.choice(["op", "print", "qfield"])
         add("rat.rt", "rat.rt.%s %d %d %s" % (v, n2, d2, hx(tail)), "rat.rt %d %d %s" % (n2, d2, hx(tail)), n=n2, d=d2, tail=tail)
 
+    # ---- preprocessor-selected I/O code.  Every conditional chain of the anchor files is listed from the current sources, the compiler
+    #      says which branch it selects, and the alternative of the Integer I/O unit (no GMP C++ streams: own packet reader, mpz_get_str
+    #      writer) is built next to the harness and driven: every decimal length 1..70 (leading digit 1 and 9, both signs), zero, word
+    #      limits, every call form, sequences; the model of that reader runs with the table read from the source.
+    chains = scan_pp_chains()
+    sel, perr = probe_selected(chains)
+    if sel is None:
+        chk.cov.setdefault("inconclusive", []).append("the branch-selection probe did not compile: " + perr[-200:])
+        sel = {}
+    ppcov = []
+    for cch in chains:
+        classes = [PP_MACROS.get(mac) for mac in cch["macros"]]
+        unknown = [mac for mac in cch["macros"] if mac not in PP_MACROS]
+        entry = {"file": cch["file"], "line": cch["line"], "cond": cch["cond"], "alternatives": cch["branches"] + (0 if cch["branches"] > 1 else 1),
+                 "first_branch_selected": sel.get(cch["cond"]), "class": sorted(set(x[0] for x in classes if x)), "note": "; ".join(sorted(set(x[1] for x in classes if x)))}
+        if unknown or not cch["line"]:
+            entry["class"] = ["UNCLASSIFIED"]
+            chk.broke("preprocessor chain in an anchor file of C19 that the check does not know: %s:%d `#if %s` (macros %s): its alternative branches are not built / driven"
+                      % (cch["file"], cch["line"], cch["cond"], ", ".join(unknown) or "?"))
+        ppcov.append(entry)
+    chk.cov["preprocessor_chains"] = ppcov
+    # the alternative that needs <strstream>
+    try:
+        unit = os.path.join(vf.REPO, "src/kernel/rational/givratcstor.C")
+        dpp = vf.mkdir(os.path.join(vf.CACHE, "c19-oldsstream-%s" % vf.file_hash([unit], "old-sstream")))
+        resf = os.path.join(dpp, "result.txt")
+        if not os.path.exists(resf):
+            rc_, out_ = vf.sh([vf.CXX] + vf.BASE_FLAGS + ["-D__GIVARO_OLD_SSTREAM__"] + vf.inc_flags() + ["-c", unit, "-o", os.path.join(dpp, "u.o")], timeout=600)
+            if rc_ != 124:
+                open(resf, "w").write("builds" if rc_ == 0 else "does not build with this compiler: " + " ".join(out_.split("\n")[1:2])[:200])
+        chk.cov["preprocessor_alternatives"] = {"__GIVARO_OLD_SSTREAM__ (givratcstor.C)": open(resf).read() if os.path.exists(resf) else "not tried (time-out)"}
+        if chk.cov["preprocessor_alternatives"]["__GIVARO_OLD_SSTREAM__ (givratcstor.C)"] == "builds":
+            chk.broke("givratcstor.C now builds with -D__GIVARO_OLD_SSTREAM__: that alternative of Rational(const char*) must be driven (not implemented)")
+    except OSError:
+        pass
+    chk.cov.setdefault("preprocessor_alternatives", {})["__GIVARO_GMP_NO_CXX (gmp++_int_io.C)"] = "built and driven (alt.* streams)"
+    chk.cov["preprocessor_alternatives"]["__GIVARO_SIZEOF_LONG < 8"] = "cannot be built here: the ABI fixes sizeof(long) = 8"
+    table = nocxx_table()
+    chk.cov["source_constants"]["integer.nocxx.table"] = table
+    if table is None:
+        chk.broke("source tie lost: the powers-of-ten table `base[] = {10, 100, ...}` of the packet reader not found in gmp++_int_io.C")
+        table = [10**k for k in range(1, 10)]
+    elif table[:9] != [10**k for k in range(1, 10)]:
+        chk.broke("gmp++_int_io.C (branch __GIVARO_GMP_NO_CXX): the table of the packet reader is %s, C19_nocxx_packets needs base[k-1] = 10^k for k = 1..9" % table)
+    tstr = ",".join(str(x) for x in table)
+    alt_tails = ["", " ", "\n", "x", ",", " 5", "/3", "-"]
+    alt_vals = [0, 2**63, -(2**63), 2**64 - 1, 2**64, -(2**64), 2**128 - 1, 2**128, -(2**128) - 1, 999999999, 1000000000, -999999999, 10**18 - 1]
+    for L in range(1, 71):
+        nine = int(("9753186420" * 8)[:L])
+        alt_vals += [10**(L - 1), -(10**(L - 1)), nine, -nine]
+    for k, z in enumerate(alt_vals):
+        tail = alt_tails[k % len(alt_tails)]
+        v = ("op", "zring", "print")[k % 3]
+        add("alt.int.rt", "int.rt.%s %d 7 %s" % (v, z, hx(tail)), "int.read.nocxx %s 7 %s" % (tstr, hx(str(z) + tail)), z=z, old=7, tail=tail, variant=v)
+        if k % 4 == 0:
+            w = ("op", "print", "string", "zring", "abs")[(k // 4) % 5]
+            add("alt.int.write", "int.write.%s %d" % (w, z), None, z=z, variant=w)
+        if k % 9 == 0 and z != 0:
+            n_, d_ = (z, 1) if k % 2 else (1, abs(z) + 1)
+            add("alt.rat.rt", "rat.rt.op %d %d %s" % (n_, d_, hx(tail if tail[:1] not in ("/", " ") else "")), None, n=n_, d=d_)
+        if k % 11 == 0:
+            add("alt.int.rtb", "int.rtb %d %d 7 -" % ((16, 8)[k % 2], z), None, z=z)
+    for k, sep in enumerate([" ", "\n", "\t", "  ", " \n ", "\r\n"]):
+        vals = [v for j, v in enumerate(alt_vals) if j % 6 == k]
+        t = sep.join(str(v) for v in vals) + ["", sep][k % 2]
+        add("alt.int.seqd", "int.seqd.%s %d %d %s" % (("op", "zring")[k % 2], -77, len(vals) + 1, hx(t)),
+            "int.seqd.nocxx %s %d %d %s" % (tstr, -77, len(vals) + 1, hx(t)), old=-77, n=len(vals) + 1, text=t)
+
     if replay:
         try:
             import json
@@ -1281,12 +1566,33 @@ def main(tier, replay=None):
 
     # 4. run both sides
     impl_in = "".join(c["impl"] + "\n" for c in cases)
-    iout, problem = run_impl(himpl, [c["impl"] for c in cases], chk.notes)
-    if iout is None and problem == "time-out":   # our own tooling ran out of time (machine load): inconclusive, recorded, not a violation
+    idx_main = [i for i, c in enumerate(cases) if not c["kind"].startswith("alt.")]
+    idx_alt = [i for i, c in enumerate(cases) if c["kind"].startswith("alt.")]
+    out_main, problem = run_impl(himpl, [cases[i]["impl"] for i in idx_main], chk.notes)
+    if out_main is None and problem == "time-out":   # our own tooling ran out of time (machine load): inconclusive, recorded, not a violation
         return inconclusive(chk, "implementation harness: wall-clock time-out, no comparison was made (%d cases)" % len(cases))
-    if iout is None:
+    if out_main is None:
         chk.broke("implementation harness failed: %s" % problem)
         return chk.finish()
+    iout = ["NOT-RUN"] * len(cases)
+    for i, l in zip(idx_main, out_main):
+        iout[i] = l
+    # 4a. the alternative preprocessor branch of the Integer I/O unit: gmp++_int_io.C compiled with -D__GIVARO_GMP_NO_CXX
+    if idx_alt:
+        halt, lalt = build_alt_nocxx()
+        if halt is None and ("[timeout" in lalt or "vanished from the cache" in lalt):
+            chk.cov.setdefault("inconclusive", []).append("the build without the GMP C++ streams could not be made (compiler time-out / cache race): its %d cases were not run" % len(idx_alt))
+        elif halt is None:
+            chk.broke("gmp++_int_io.C no longer builds with -D__GIVARO_GMP_NO_CXX (the alternative branch of Integer::print / operator>>)", lalt)
+        else:
+            out_alt, problem = run_impl(halt, [cases[i]["impl"] for i in idx_alt], chk.notes)
+            if out_alt is None and problem == "time-out":
+                chk.cov.setdefault("inconclusive", []).append("alt harness: wall-clock time-out, its %d cases were not compared" % len(idx_alt))
+            elif out_alt is None:
+                chk.broke("alt harness (build without the GMP C++ streams) failed: %s" % problem)
+            else:
+                for i, l in zip(idx_alt, out_alt):
+                    iout[i] = l
     mout = None
     midx = [i for i, c in enumerate(cases) if c["model"]]
     if drv:
@@ -1318,7 +1624,12 @@ def main(tier, replay=None):
         kind, sp, got = c["kind"], c["spec"], iout[i].split()
         dist[kind] = dist.get(kind, 0) + 1
         mline = mout.get(i) if mout is not None else None
-        bad = judge(chk, c, got, mline, gfq_texts)
+        if kind.startswith("alt."):
+            bad = False
+            if got != ["NOT-RUN"]:
+                judge_alt(chk, c, got, mline)
+        else:
+            bad = judge(chk, c, got, mline, gfq_texts)
         nontrivial = any(isinstance(v, int) and abs(v) > 9 for v in sp.values()) or len(sp.get("text", "")) > 2 or len(sp.get("cs", [])) > 1
         chk.count(c["impl"], nontrivial=nontrivial)
         if i % 401 == 0:
